@@ -613,6 +613,9 @@ func AddActions(t *rapid.T, g *gr.Grammar, o SynOpts) {
 				tag += rapid.SampledFrom([]string{"%d", "%", "%%", "%s%v"}).Draw(t, "percent")
 			}
 			style := rapid.IntRange(0, 9).Draw(t, "actStyle")
+			if a.Empty && !o.AllRec && rapid.Bool().Draw(t, "emptyWithoutAction") {
+				style = 0 // the usual way to write an optional part: its value is nil
+			}
 			if o.AllRec && style < 2 {
 				style = 5
 			}
